@@ -692,8 +692,10 @@ class Dataset(AbstractDataset, dict, OpMixin, GetSetDelAttrMixin):
             dataset.axes[axis][mask] = values[mask]
 
             for k in dataset.keys():
+                if newax.name not in dataset[k].dims:
+                    continue # variable without this axis: left unchanged
                 if method is None:
-                    dataset[k].put(mask, fill_value, axis=axis, inplace=True, indexing="position", cast=True)
+                    dataset[k].put(mask, fill_value, axis=newax.name, inplace=True, indexing="position", cast=True)
 
         return dataset
 
